@@ -61,18 +61,18 @@ type c04Case struct {
 func (c c04Case) String() string { return fmt.Sprintf("%s/%s/%s", c.Cfg, c.Mode, c.Fault) }
 
 type c04Result struct {
-	Case     c04Case           `json:"case"`
-	Connect  string            `json:"connect"` // ok | error class
-	Stream   string            `json:"stream"`  // what the stream attempt did
-	Ops      [2]int            `json:"ops"`     // raw I/O calls on the two ends of the first raw connection
-	OpsConn  [2]int            `json:"ops_connect"` // ... of which before the stream attempt started
-	Pairs    int               `json:"raw_connections"`
-	RcCalls  [2]map[string]int `json:"rcmgr_calls"`
-	GaCalls  [2]map[string]int `json:"gater_calls"`
-	Fired    bool              `json:"fault_fired"`
-	Vios     []memtpt.Vio      `json:"violations,omitempty"`
-	Infra    string            `json:"infra,omitempty"`
-	Trace    []string          `json:"trace,omitempty"`
+	Case    c04Case           `json:"case"`
+	Connect string            `json:"connect"`     // ok | error class
+	Stream  string            `json:"stream"`      // what the stream attempt did
+	Ops     [2]int            `json:"ops"`         // raw I/O calls on the two ends of the first raw connection
+	OpsConn [2]int            `json:"ops_connect"` // ... of which before the stream attempt started
+	Pairs   int               `json:"raw_connections"`
+	RcCalls [2]map[string]int `json:"rcmgr_calls"`
+	GaCalls [2]map[string]int `json:"gater_calls"`
+	Fired   bool              `json:"fault_fired"`
+	Vios    []memtpt.Vio      `json:"violations,omitempty"`
+	Infra   string            `json:"infra,omitempty"`
+	Trace   []string          `json:"trace,omitempty"`
 }
 
 func (r *c04Result) class() string {
@@ -627,7 +627,7 @@ func TestVerifC04Host(t *testing.T) {
 			if shard == 0 {
 				r.Note("%s/%s: dry run: raw I/O calls dialer end %d (connect+identify %d), listener end %d (connect+identify %d); rcmgr calls a=%v b=%v; gater calls a=%v b=%v",
 					cfg, mode, dry.Ops[0], dry.OpsConn[0], dry.Ops[1], dry.OpsConn[1], dry.RcCalls[0], dry.RcCalls[1], dry.GaCalls[0], dry.GaCalls[1])
-				if mi == 0 {
+				if mi == 0 && cfg == cfgs[0] {
 					dry.Trace = nil
 					r.Sample(dry)
 				}
